@@ -549,6 +549,9 @@ def run(ctx):
     # ---------------------------------------------------------------- R5 one application per step
     before = len(ctx.obs)
     record_protocol(ctx, 'C08.R5x', once_rule='C08.R5')
+    # ... and to the wells the step addressed: the eager operation on plate[sel] changes those wells only
+    from .c07 import addressed_selection
+    addressed_selection(ctx, 'C08.R5')
     ctx.obs[before:] = [o for o in ctx.obs[before:] if o.rule == 'C08.R5']
     # ---------------------------------------------------------------- R6 result dictionary
     rets = [e for e in ff.normal_exits() if e.kind == 'return']
